@@ -16,7 +16,7 @@
    the vector table: their privileged accesses are exactly those of [enter] (C08_entry_refines). *)
 From Coq Require Import ZArith List Bool.
 From Model Require Import Bits Word Instr Sim.
-From Proofs Require Import SimAccess SimUser IrqProofs SimUserRun.
+From Proofs Require Import SimAccess SimUser IrqProofs SimUserRun SimUserHalt.
 Import ListNotations.
 Open Scope Z_scope.
 
@@ -109,6 +109,26 @@ Theorem C09_run_example :
     mget (s_mem t) 512 = new_init 777.
 Proof. exact ex_user_run. Qed.
 Print Assumptions C09_run_example.
+(* the one TRAP that does not enter the OS: under virtual traps HALT (TRAP x25) stops the machine where it is.
+   The confinement theorems hold for programs that end in it: [stays_user real i] = every instruction but TRAP,
+   and TRAP x25 when traps are virtual *)
+Theorem C09_stays_user_def : forall real i,
+  stays_user real i = match i with STRAP v => negb real && (v =? 37) | _ => true end.
+Proof. reflexivity. Qed.
+Print Assumptions C09_stays_user_def.
+Theorem C09_user_instruction_confined_halt : forall e i s0 s,
+  stays_user (fl_real (s_flags s0)) i = true -> U s0 s -> U s0 (fst (exec e i s)).
+Proof. intros e i s0 s H Hs. exact (inv_U_exec_halt e i s0 H s Hs). Qed.
+Print Assumptions C09_user_instruction_confined_halt.
+Theorem C09_user_step_confined_halt : forall e s0 s,
+  UP s0 s -> (forall v p, ~ takes_irq e s v p) ->
+  (forall i, decode (w_data (mget (s_mem s) (s_pc s))) = DOk i -> stays_user (fl_real (s_flags s0)) i = true) ->
+  UP s0 (fst (step_inner e s)) /\ s_devs (fst (step_inner e s)) = polled_devs e (s_devs s) (e_draws e).
+Proof. exact user_step_confined_halt. Qed.
+Print Assumptions C09_user_step_confined_halt.
+Theorem C09_user_run_confined_halt : forall s0 s t, UserRunH (fl_real (s_flags s0)) s t -> UP s0 s -> UP s0 t.
+Proof. exact user_run_confined_halt. Qed.
+Print Assumptions C09_user_run_confined_halt.
 (* the invariant is what it should be, and holds initially for every user-mode state *)
 Theorem C09_invariant_meaning : forall s0 s, U s0 s ->
   psr_privileged (s_psr s) = false /\ s_devs s = s_devs s0 /\ s_saved_sp s = s_saved_sp s0 /\ s_mcr s = s_mcr s0
